@@ -24,7 +24,7 @@ def Inl.safe : Inl → Bool
   | .emph _ cs => cs.safe
   | .strong _ cs => cs.safe
   | .strike cs => cs.safe
-  | .link url _ _ cs => urlSafe url && cs.safe
+  | .link url _ _ _ cs => urlSafe url && cs.safe
   | .image url _ _ cs => urlSafe url && cs.safe
   | .autolink s r => urlSafe (autolinkUrl s r)
   | _ => true
